@@ -34,7 +34,7 @@ func needDims(a *mc.Agg, dims ...string) []string {
 	return errs
 }
 
-func c01Work(c *mc.Ctx) { enumCases(c, c01Case) }
+func c01Work(c *mc.Ctx) { enumItems(c, withRecursive(ref.Universe(c.Tier)), c01Case) }
 
 // enumCases walks the whole bounded universe, handing this worker's shard of
 // (configuration, type-in-position, value) cases to f.
